@@ -7,6 +7,7 @@ import (
 	"sort"
 	"strings"
 	"testing"
+	"time"
 	"unicode/utf8"
 
 	"verifharness/internal/ev"
@@ -24,6 +25,13 @@ import (
 //   - the document is cut off at every byte offset (small documents) or at spread offsets;
 //   - inside the first scalars every contiguous range of character-class runs is deleted
 //     ("__MSG_name__" becomes "__MSG__", "1.2.3" becomes "1..3", `"x"` becomes `"`).
+// Every other location at which an extractor accepts its format (the fixtures' Paths beyond the
+// first: usr/lib/opkg/status and var/lib/dpkg/status.d/<name> for os/dpkg, the nine directory x
+// file name combinations of os/rpm, every archive extension of java/archive ...) gets unchanged
+// fixtures and a few mutants of them; and every extractor that consults os-release gets, at
+// every one of its locations, a healthy fixture and a few mutants of it in trees that present
+// os-release in every other way (only at usr/lib/, empty, without ID / VERSION_ID, absent,
+// etc/os-release a symbolic link into usr/lib/, etc/os-release a directory).
 // For ELF fixtures every section header's offset, size, link/info and entsize field is set to
 // each of a few hostile values. Every case is decided by the same oracle as a random mutant.
 
@@ -262,6 +270,10 @@ func TestC02_linesweep(t *testing.T) {
 		crossLines:  ev.IntEnv("C02_SWEEP_CROSSLINES", ev.Scale(24, 400)),
 		crossBases:  ev.Scale(1, 3),
 	}
+	locFixtures := ev.IntEnv("C02_SWEEP_LOCFIXTURES", ev.Scale(2, 1000)) // fixtures per further location
+	osrelFixtures := ev.Scale(1, 4)                                      // healthy fixtures per (location, os-release variant)
+	fewMuts := ev.Scale(2, len(placeMuts(nil)))
+	var locCases, locPlaces, osrelCases, osrelPlaces int
 	only := os.Getenv("C02_ONLY")
 	var idx, ran, targets, auxTargets int
 	stopped := false
@@ -300,6 +312,88 @@ func TestC02_linesweep(t *testing.T) {
 					if !run(c02Case{Leg: "linesweep", Extractor: e.Name, Path: v, Base: f.Rel}, "linesweep_path_spelling") {
 						break
 					}
+				}
+			}
+		}
+		if stopped {
+			break
+		}
+		// every further location the extractor accepts: unchanged fixtures and a few mutants
+		// (the first path of each fixture is where the rest of the sweep takes place)
+		byLoc := map[string][]fixture{}
+		for _, f := range e.Fixtures {
+			for _, p := range f.Paths[min(1, len(f.Paths)):] {
+				byLoc[p] = append(byLoc[p], f)
+			}
+		}
+		for k, p := range e.locations() {
+			fs := byLoc[p]
+			if len(fs) == 0 {
+				continue
+			}
+			locPlaces++
+			for j := 0; j < locFixtures && j < len(fs) && !stopped; j++ {
+				f := fs[(k*locFixtures+j)%len(fs)] // other locations start at other fixtures
+				b, err := readBase(f.Rel)
+				if err != nil {
+					continue
+				}
+				for _, ms := range append([][]Mut{nil}, placeMuts(b)[:fewMuts]...) {
+					c := c02Case{Leg: "linesweep", Extractor: e.Name, Path: p, Base: f.Rel, Muts: ms, Contain: true}
+					pickHealthy(&c, e, idx)
+					if c.Contain {
+						c.ScanOpts = scanOptChoices[idx%len(scanOptChoices)]
+					}
+					locCases++
+					if !run(c, "linesweep_location") {
+						break
+					}
+				}
+			}
+			if stopped {
+				break
+			}
+		}
+		if stopped {
+			break
+		}
+		// extractors that consult os-release: every location x every other presentation of
+		// os-release x healthy fixtures (and a few mutants of them)
+		if e.OSRel {
+			for _, p := range e.locations() {
+				if e.execPath(p) {
+					continue
+				}
+				osrelPlaces++
+				seeds := healthySeeds(e, p, osrelFixtures)
+				for _, v := range osRelVariants[1:] {
+					for _, seed := range seeds {
+						b, _ := seed.input()
+						for _, ms := range append([][]Mut{nil}, placeMuts(b)[:fewMuts]...) {
+							if len(b) == 0 && ms != nil {
+								continue // nothing to mutate (os/nix only looks at the path)
+							}
+							c := seed
+							c.OSRel, c.Muts, c.Contain = v, ms, true
+							pickHealthy(&c, e, idx)
+							if c.Contain {
+								c.ScanOpts = scanOptChoices[idx%len(scanOptChoices)]
+							}
+							osrelCases++
+							if !run(c, "linesweep_osrelease") {
+								break
+							}
+						}
+						if stopped {
+							break
+						}
+					}
+					if stopped {
+						break
+					}
+				}
+				if stopped {
+					break
 				}
 			}
 		}
@@ -352,7 +446,7 @@ func TestC02_linesweep(t *testing.T) {
 				if auxDone[src] >= 2 {
 					continue
 				}
-				over := auxOverride(e, f.Rel, f.Paths[0], p, nil)
+				over := auxOverride(e, f.Rel, f.Paths[0], "", p, nil)
 				body := over[p]
 				if !textual(body) {
 					continue
@@ -422,9 +516,61 @@ func TestC02_linesweep(t *testing.T) {
 	if stopped {
 		col.SetExtra("linesweep", fmt.Sprintf("stopped at the violation cap after %d cases", ran))
 	} else {
+		col.SetExtra("linesweep_locations", fmt.Sprintf("%d cases (this shard's share of them run): unchanged fixtures and %d mutants each at %d further accepted locations, up to %d fixtures per location", locCases, fewMuts, locPlaces, locFixtures))
+		col.SetExtra("linesweep_osrelease", fmt.Sprintf("%d cases (this shard's share of them run): %d locations of the extractors that consult os-release x %d other presentations of os-release x up to %d healthy fixtures (unchanged and %d mutants each)", osrelCases, osrelPlaces, len(osRelVariants)-1, osrelFixtures, fewMuts))
 		col.SetExtra("linesweep", fmt.Sprintf("%d cases over %d text fixtures / archive metadata members / ELF fixtures and %d neighbour files (budget per target: %d lines, %d cut-off offsets, %d scalars)", ran, targets, auxTargets, bud.lines, bud.truncs, bud.scalars))
 	}
 	completed = true
+}
+
+// placeMuts are the few mutants a fixture gets at a further location or under another
+// presentation of os-release: cut in the middle, first line gone (the quick tier stops here),
+// cut after one byte, first line twice, CRLF, last line gone, one bit flipped, no final newline.
+func placeMuts(b []byte) [][]Mut {
+	return [][]Mut{
+		{{Op: "trunc", A: len(b) / 2}},
+		{{Op: "delline", A: 0}},
+		{{Op: "trunc", A: 1}},
+		{{Op: "dupline", A: 0}},
+		{{Op: "crlf"}},
+		{{Op: "delline", A: -1}},
+		{{Op: "flip", A: len(b) / 3, B: 0}},
+		{{Op: "dropnl"}},
+	}
+}
+
+// healthySeeds returns up to n seeds (cases without mutations) that the extractor turns into at
+// least one package without an error at path p under the default os-release; when none of the
+// first fixtures does, the first n fixtures; for an extractor without fixtures the empty file.
+func healthySeeds(e *extInfo, p string, n int) []c02Case {
+	var ok, all []c02Case
+	tried := 0
+	for _, f := range e.Fixtures {
+		fits := false
+		for _, q := range f.Paths {
+			fits = fits || q == p
+		}
+		if !fits {
+			continue
+		}
+		c := c02Case{Leg: "linesweep", Extractor: e.Name, Path: p, Base: f.Rel}
+		all = append(all, c)
+		if len(ok) >= n || tried >= n+6 {
+			continue
+		}
+		tried++
+		r, st, _, err := execute(c, wallBudget+2*time.Second)
+		if err == nil && st == execOK && r.Harness == "" && !r.Panicked && !r.HasErr && r.Pkgs > 0 {
+			ok = append(ok, c)
+		}
+	}
+	switch {
+	case len(ok) > 0:
+		return ok
+	case len(all) > 0:
+		return all[:min(n, len(all))]
+	}
+	return []c02Case{{Leg: "linesweep", Extractor: e.Name, Path: p}}
 }
 
 // crossLines collects up to limit distinct lines from the text fixtures of an extractor,
